@@ -28,24 +28,12 @@ theorem centroid_sum_get (S : List (Tri ℝ)) (i : Nat) (hi : i < 3) :
   · simp only [V3.get_one, V3.sum_y, sumOver, List.map_map]; rfl
   · simp only [V3.get_two, V3.sum_z, sumOver, List.map_map]; rfl
 
-theorem first_get (Ts : List (Tet ℝ)) (i : Nat) (hi : i < 3) :
-    (Spec.first Ts).get i = (Ts.map fun T => (Spec.tetFirst T).get i).sum := by
-  cases3 i
-  · simpa using Spec.first_x Ts
-  · simpa using Spec.first_y Ts
-  · simpa using Spec.first_z Ts
-
 /-- the surface sum of the curl-theorem centroid is 48 × the exact first moment -/
 theorem centroid_sum_exact {S : List (Tri ℝ)} {Ts : List (Tet ℝ)}
     (h : ChainEq S (Ts.flatMap Tet.bdry)) (i : Nat) (hi : i < 3) :
     (V3.sum (S.map CP.centroidTerm)).get i = 48 * (Spec.first Ts).get i := by
   rw [centroid_sum_get S i hi, sumOver_bdry (cenPhi_oddCyclic i hi) (cenPhi_tet i hi) h,
     first_get Ts i hi, list_sum_map_mul]
-
-theorem V3.ext_get {u v : V3 ℝ} (h : ∀ i, i < 3 → u.get i = v.get i) : u = v := by
-  have h0 := h 0 (by omega); have h1 := h 1 (by omega); have h2 := h 2 (by omega)
-  simp only [V3.get_zero, V3.get_one, V3.get_two] at h0 h1 h2
-  exact V3.ext' h0 h1 h2
 
 /-- **C01 centroid.** For an outward oriented surface (positive volume) the curl-theorem
 centroid equals first moment / volume. -/
@@ -78,32 +66,6 @@ theorem inmTerm_eq (t : Tri ℝ) (c : V3 ℝ) (hnd : V3.norm t.nvec ≠ 0) (s0 s
   rw [triArea_two, nvec_map_sub, mul_assoc, mul_assoc, simplexNormal_get t hnd,
     simplexNormal_get t hnd]
 
-theorem second_translate (Ts : List (Tet ℝ)) (c : V3 ℝ) (i j : Nat) (hi : i < 3) (hj : j < 3) :
-    Spec.second (Ts.map (Tet.map (· - c))) i j =
-      Spec.second Ts i j - c.get i * (Spec.first Ts).get j - c.get j * (Spec.first Ts).get i
-        + c.get i * c.get j * Spec.vol Ts := by
-  rw [Spec.second_eq, Spec.second_eq, first_get Ts j hj, first_get Ts i hi, Spec.vol_eq]
-  induction Ts with
-  | nil => simp
-  | cons T Ts ih =>
-    simp only [List.map_cons, List.sum_cons, List.map_map] at ih ⊢
-    rw [tetSecond_translate T c i j hi hj]
-    have := ih
-    simp only [Function.comp_def] at this ⊢
-    linarith
-
-/-- centred second moments: with `c` the centroid, `M(Ts − c) = M(Ts) − vol · c cᵀ` -/
-theorem second_centred (Ts : List (Tet ℝ)) (i j : Nat) (hi : i < 3) (hj : j < 3)
-    (hv : Spec.vol Ts ≠ 0) :
-    Spec.second (Ts.map (Tet.map (· - Spec.centroid Ts))) i j =
-      Spec.second Ts i j - Spec.vol Ts * (Spec.centroid Ts).get i * (Spec.centroid Ts).get j := by
-  rw [second_translate Ts _ i j hi hj]
-  have hc : ∀ k, k < 3 → (Spec.first Ts).get k = Spec.vol Ts * (Spec.centroid Ts).get k := by
-    intro k hk; unfold Spec.centroid
-    cases3 k <;> simp only [V3.get_zero, V3.get_one, V3.get_two, V3.sdiv_x, V3.sdiv_y, V3.sdiv_z] <;>
-      field_simp
-  rw [hc i hi, hc j hj]; ring
-
 theorem inn_sum_exact {S : List (Tri ℝ)} {Ts : List (Tet ℝ)} (c : V3 ℝ)
     (h : ChainEq S (Ts.flatMap Tet.bdry)) (hnd : ∀ t ∈ S, V3.norm t.nvec ≠ 0)
     (s0 s1 : Nat) (h0 : s0 < s1) (h1 : s1 < 3) :
@@ -135,11 +97,6 @@ theorem inm_sum_exact {S : List (Tri ℝ)} {Ts : List (Tet ℝ)} (c : V3 ℝ)
   apply List.map_congr_left
   intro t ht
   exact inmTerm_eq t c (hnd t ht) s0 s1
-
-theorem M3.ext' {A B : M3 ℝ} (h1 : A.xx = B.xx) (h2 : A.xy = B.xy) (h3 : A.xz = B.xz)
-    (h4 : A.yx = B.yx) (h5 : A.yy = B.yy) (h6 : A.yz = B.yz) (h7 : A.zx = B.zx)
-    (h8 : A.zy = B.zy) (h9 : A.zz = B.zz) : A = B := by
-  cases A; cases B; simp_all
 
 /-- **C01 inertia tensor.** For every surface `S` of non-degenerate triangles that is the boundary
 chain of a tetrahedralisation `Ts` of non-zero volume, the 4-point-quadrature tensor about the
